@@ -19,8 +19,6 @@ Definition clamp_dist (s : hstate) (k : Z) : Z :=
 Definition set_old (e : ev) : msg := SetMsg (eaddr e) (ety e) (eold e).
 Definition set_new (e : ev) : msg := SetMsg (eaddr e) (ety e) (enew e).
 
-(* precondition: the set-message of every event fits the 256-byte buffer *)
-Definition all_fit (l : list ev) : Prop := Forall (fun e => fits (eaddr e) = true) l.
 
 (* the applied events, newest first *)
 Definition applied_newest_first (s : hstate) : list ev := rev (firstn (pos s) (hist s)).
@@ -45,7 +43,6 @@ Definition time_inv (s : hstate) : Prop :=
 
 (* admissible histories: the clock only advances *)
 Definition op_ok (o : op) : Prop := match o with Tick d => 0 <= d | _ => True end.
-Definition op_fit (o : op) : Prop := match o with Record a _ _ _ => fits a = true | _ => True end.
 
 Definition size_ok (s : hstate) : Prop := pos_ok s /\ (length (hist s) <= max_history_size)%nat.
 
@@ -152,52 +149,29 @@ Proof.
     rewrite replay_loop_spec by lia. reflexivity.
 Qed.
 
-Lemma flat_map_rewind_fit : forall l, all_fit l -> flat_map rewind l = map set_old l.
-Proof.
-  induction l as [|e l IH]; intro H; [reflexivity|].
-  inversion H; subst. simpl. unfold rewind at 1. rewrite H2. simpl. rewrite IH by assumption. reflexivity.
-Qed.
+Lemma flat_map_rewind_fit : forall l, flat_map rewind l = map set_old l.
+Proof. induction l as [|e l IH]; [reflexivity|]. simpl. rewrite IH. reflexivity. Qed.
 
-Lemma flat_map_replay_fit : forall l, all_fit l -> flat_map replay l = map set_new l.
-Proof.
-  induction l as [|e l IH]; intro H; [reflexivity|].
-  inversion H; subst. simpl. unfold replay at 1. rewrite H2. simpl. rewrite IH by assumption. reflexivity.
-Qed.
-
-Lemma all_fit_firstn : forall n l, all_fit l -> all_fit (firstn n l).
-Proof.
-  intros n l H. unfold all_fit in *. rewrite <- (firstn_skipn n l) in H.
-  apply Forall_app in H. tauto.
-Qed.
-
-Lemma all_fit_skipn : forall n l, all_fit l -> all_fit (skipn n l).
-Proof.
-  intros n l H. unfold all_fit in *. rewrite <- (firstn_skipn n l) in H.
-  apply Forall_app in H. tauto.
-Qed.
-
-Lemma all_fit_rev : forall l, all_fit l -> all_fit (rev l).
-Proof. intros l H. apply Forall_rev. exact H. Qed.
+Lemma flat_map_replay_fit : forall l, flat_map replay l = map set_new l.
+Proof. induction l as [|e l IH]; [reflexivity|]. simpl. rewrite IH. reflexivity. Qed.
 
 (* seeking back k steps emits, newest first, one message per event that sets
    its address to the event's old value *)
-Lemma seek_back : forall s (k : nat), pos_ok s -> all_fit (hist s) -> (k <= pos s)%nat ->
+Lemma seek_back : forall s (k : nat), pos_ok s -> (k <= pos s)%nat ->
   seek (- Z.of_nat k) s =
   Some (mkH (hist s) (pos s - k) (clock s), map set_old (firstn k (applied_newest_first s))).
 Proof.
-  intros s k Hok Hfit Hk. rewrite seek_back_gen by assumption.
+  intros s k Hok Hk. rewrite seek_back_gen by assumption.
   rewrite flat_map_rewind_fit. reflexivity.
-  apply all_fit_firstn. unfold applied_newest_first. apply all_fit_rev. apply all_fit_firstn. exact Hfit.
 Qed.
 
 (* seeking forward replays the new values oldest first *)
-Lemma seek_forward : forall s (k : nat), all_fit (hist s) -> (pos s + k <= length (hist s))%nat ->
+Lemma seek_forward : forall s (k : nat), (pos s + k <= length (hist s))%nat ->
   seek (Z.of_nat k) s =
   Some (mkH (hist s) (pos s + k) (clock s), map set_new (firstn k (undone_oldest_first s))).
 Proof.
-  intros s k Hfit Hk. rewrite seek_forward_gen by assumption.
+  intros s k Hk. rewrite seek_forward_gen by assumption.
   rewrite flat_map_replay_fit. reflexivity.
-  apply all_fit_firstn. unfold undone_oldest_first. apply all_fit_skipn. exact Hfit.
 Qed.
 
 Lemma seek_clamped : forall s k, pos_ok s -> seek k s = seek (clamp_dist s k) s.
@@ -603,41 +577,6 @@ Proof.
   intro ops. apply G. apply size_ok_init.
 Qed.
 
-Lemma all_fit_record : forall a ty old nw s, pos_ok s -> all_fit (hist s) -> fits a = true ->
-  all_fit (hist (record a ty old nw s)).
-Proof.
-  intros a ty old nw s Hok Hf Ha. rewrite record_char by assumption.
-  assert (Hp : all_fit (firstn (pos s) (hist s))) by (apply all_fit_firstn; assumption).
-  destruct (merge_scan _ _ _ _ _) as [l|] eqn:E.
-  - apply merge_scan_some in E. destruct E as (l1 & h & l2 & E1 & _ & _ & ->).
-    cbn [hist]. apply all_fit_rev. apply all_fit_rev in Hp. rewrite E1 in Hp.
-    unfold all_fit in *. apply Forall_app in Hp. destruct Hp as [H1 H2]. inversion H2; subst.
-    apply Forall_app. split; [assumption|]. constructor; assumption.
-  - cbn zeta.
-    assert (H2 : all_fit (firstn (pos s) (hist s) ++ [mkEv (clock s) a ty old nw])).
-    { unfold all_fit. apply Forall_app. split; [assumption|]. constructor; [assumption|constructor]. }
-    destruct (Nat.ltb _ _); cbn [hist]; [apply Forall_tl|]; assumption.
-Qed.
-
-Definition fit_state (s : hstate) : Prop := size_ok s /\ all_fit (hist s).
-
-Lemma step_fit : forall s o s' ms, fit_state s -> op_fit o -> step s o = Some (s', ms) -> fit_state s'.
-Proof.
-  intros s o s' ms [Hsz Hf] Hop H. split; [eapply step_size; eauto|].
-  destruct o as [a ty old nw|k|d]; cbn [step] in H.
-  - inversion H; subst. apply all_fit_record; [apply Hsz|assumption|assumption].
-  - destruct Hsz as [Hok Hsz].
-    destruct (seek_total s k Hok) as [ms' E]. rewrite E in H. inversion H; subst. assumption.
-  - inversion H; subst. assumption.
-Qed.
-
-Lemma run_fit : forall ops s mss, Forall op_fit ops -> run ops init = Some (s, mss) -> fit_state s.
-Proof.
-  intros ops s mss Hf H.
-  apply (run_preserves fit_state op_fit step_fit ops init s mss); [|assumption|assumption].
-  split; [apply size_ok_init|constructor].
-Qed.
-
 Lemma run_time : forall ops s mss, Forall op_ok ops -> run ops init = Some (s, mss) -> inv s.
 Proof.
   intros ops s mss Hf H.
@@ -646,21 +585,20 @@ Qed.
 
 (* ---- the property clauses over whole histories ---------------------------- *)
 Lemma hist_seek_back : forall ops s mss (k : nat),
-  Forall op_fit ops -> run ops init = Some (s, mss) -> (k <= pos s)%nat ->
+  run ops init = Some (s, mss) -> (k <= pos s)%nat ->
   seek (- Z.of_nat k) s =
   Some (mkH (hist s) (pos s - k) (clock s), map set_old (firstn k (applied_newest_first s))).
 Proof.
-  intros ops s mss k Hf H Hk. destruct (run_fit _ _ _ Hf H) as [[Hok _] Hfit].
+  intros ops s mss k H Hk. destruct (run_size _ _ _ H) as [Hok _].
   apply seek_back; assumption.
 Qed.
 
 Lemma hist_seek_forward : forall ops s mss (k : nat),
-  Forall op_fit ops -> run ops init = Some (s, mss) -> (pos s + k <= length (hist s))%nat ->
+  run ops init = Some (s, mss) -> (pos s + k <= length (hist s))%nat ->
   seek (Z.of_nat k) s =
   Some (mkH (hist s) (pos s + k) (clock s), map set_new (firstn k (undone_oldest_first s))).
 Proof.
-  intros ops s mss k Hf H Hk. destruct (run_fit _ _ _ Hf H) as [_ Hfit].
-  apply seek_forward; assumption.
+  intros ops s mss k H Hk. apply seek_forward; assumption.
 Qed.
 
 Lemma hist_seek_clamped : forall ops s mss k,
@@ -743,12 +681,12 @@ Definition value_latest (h : list ev) (a : addr) (dflt : Z) : Z :=
 
 Definition e_inv (st : store * hstate) : Prop :=
   let (f, s) := st in
-  inv s /\ all_fit (hist s) /\
+  inv s /\
   exists base, chain_ok (hist s) base /\
                forall a, f a = run_new (firstn (pos s) (hist s)) base a.
 
 Definition eop_ok (o : eop) : Prop :=
-  match o with Change a _ _ => fits a = true | ETick d => 0 <= d | ESeek _ => True end.
+  match o with ETick d => 0 <= d | _ => True end.
 
 Lemma upd_same : forall f a v, upd f a v a = v.
 Proof. intros. unfold upd. rewrite addr_eqb_refl. reflexivity. Qed.
@@ -911,13 +849,12 @@ Proof.
   - rewrite rev_app_distr. simpl. rewrite <- app_assoc. reflexivity.
 Qed.
 
-Lemma e_change : forall f s a ty v, e_inv (f, s) -> fits a = true -> f a <> v ->
+Lemma e_change : forall f s a ty v, e_inv (f, s) -> f a <> v ->
   e_inv (upd f a v, record a ty (f a) v s).
 Proof.
-  intros f s a ty v (Hinv & Hfit & base & Hc & Hf) Ha Hne.
+  intros f s a ty v (Hinv & base & Hc & Hf) Hne.
   pose proof Hinv as [[Hok Hsz] Ht].
   split; [apply (step_inv s (Record a ty (f a) v) _ [] Hinv I eq_refl)|].
-  split; [apply all_fit_record; assumption|].
   pose proof Hok as Hok'. unfold pos_ok in Hok'.
   assert (Hl : length (firstn (pos s) (hist s)) = pos s) by (rewrite firstn_length; lia).
   assert (Hcp : chain_ok (firstn (pos s) (hist s)) base).
@@ -950,13 +887,13 @@ Proof.
     + exists base. split; [assumption|]. intro x. rewrite firstn_all2 by lia. apply F2.
 Qed.
 
-Lemma seek_cases : forall s k s' ms, pos_ok s -> all_fit (hist s) -> seek k s = Some (s', ms) ->
+Lemma seek_cases : forall s k s' ms, pos_ok s -> seek k s = Some (s', ms) ->
   (exists n : nat, (n <= pos s)%nat /\ s' = mkH (hist s) (pos s - n) (clock s) /\
                    ms = map set_old (firstn n (applied_newest_first s))) \/
   (exists n : nat, (pos s + n <= length (hist s))%nat /\ s' = mkH (hist s) (pos s + n) (clock s) /\
                    ms = map set_new (firstn n (undone_oldest_first s))).
 Proof.
-  intros s k s' ms Hok Hfit H. rewrite seek_clamped in H by assumption.
+  intros s k s' ms Hok H. rewrite seek_clamped in H by assumption.
   pose proof Hok as Hok'. unfold pos_ok in Hok'.
   remember (clamp_dist s k) as c eqn:Ec.
   assert (Hc : - Z.of_nat (pos s) <= c <= Z.of_nat (length (hist s)) - Z.of_nat (pos s))
@@ -974,19 +911,19 @@ Qed.
 Lemma e_seek : forall f s k s' ms, e_inv (f, s) -> seek k s = Some (s', ms) ->
   e_inv (apply_msgs f ms, s').
 Proof.
-  intros f s k s' ms (Hinv & Hfit & base & Hc & Hf) H.
+  intros f s k s' ms (Hinv & base & Hc & Hf) H.
   pose proof Hinv as [[Hok Hsz] Ht].
   pose proof (step_inv s (Seek k) s' ms Hinv I H) as Hinv'.
   pose proof Hok as Hok'. unfold pos_ok in Hok'.
   assert (Hl : length (firstn (pos s) (hist s)) = pos s) by (rewrite firstn_length; lia).
   assert (Hcp : chain_ok (firstn (pos s) (hist s)) base).
   { rewrite <- (firstn_skipn (pos s) (hist s)) in Hc. apply chain_ok_app in Hc. tauto. }
-  destruct (seek_cases s k s' ms Hok Hfit H) as [(n & Hn & -> & ->)|(n & Hn & -> & ->)].
-  - split; [assumption|]. split; [assumption|]. exists base. cbn [hist pos]. split; [assumption|].
+  destruct (seek_cases s k s' ms Hok H) as [(n & Hn & -> & ->)|(n & Hn & -> & ->)].
+  - split; [assumption|]. exists base. cbn [hist pos]. split; [assumption|].
     intro x. unfold applied_newest_first.
     rewrite (apply_set_old n (firstn (pos s) (hist s)) base f Hcp Hf) by lia.
     rewrite Hl. rewrite firstn_firstn. rewrite Nat.min_l by lia. reflexivity.
-  - split; [assumption|]. split; [assumption|]. exists base. cbn [hist pos]. split; [assumption|].
+  - split; [assumption|]. exists base. cbn [hist pos]. split; [assumption|].
     intro x. unfold undone_oldest_first. rewrite apply_set_new.
     rewrite <- (firstn_skipn (pos s) (hist s)) at 2.
     rewrite <- Hl at 2. rewrite firstn_app_2. rewrite run_new_app.
@@ -998,11 +935,11 @@ Proof.
   intros [f s] o st' ms Hi Hop H. destruct o as [a ty v|k|d]; cbn [estep] in H.
   - destruct (f a =? v) eqn:E.
     + inversion H; subst. assumption.
-    + inversion H; subst. apply e_change; [assumption|exact Hop|]. apply Z.eqb_neq. assumption.
+    + inversion H; subst. apply e_change; [assumption|]. apply Z.eqb_neq. assumption.
   - destruct (seek k s) as [[s1 ms1]|] eqn:E; [|discriminate]. inversion H; subst.
     eapply e_seek; eauto.
-  - inversion H; subst. destruct Hi as (Hinv & Hfit & Hb).
-    split; [apply (step_inv s (Tick d) _ [] Hinv Hop eq_refl)|]. split; assumption.
+  - inversion H; subst. destruct Hi as (Hinv & Hb).
+    split; [apply (step_inv s (Tick d) _ [] Hinv Hop eq_refl)|]. assumption.
 Qed.
 
 Lemma estep_total : forall f s o, pos_ok s -> exists r, estep (f, s) o = Some r.
@@ -1015,7 +952,7 @@ Qed.
 
 Lemma e_inv_init : forall f0, e_inv (f0, init).
 Proof.
-  intro f0. split; [apply inv_init|]. split; [constructor|].
+  intro f0. split; [apply inv_init|].
   exists f0. split; [exact I|]. intro a. reflexivity.
 Qed.
 
@@ -1037,7 +974,7 @@ Lemma e_undo_all : forall f s, e_inv (f, s) ->
     pos s' = 0%nat /\ hist s' = hist s /\
     forall a, f' a = value_before_oldest (hist s) a (f a).
 Proof.
-  intros f s Hi. pose proof Hi as (Hinv & Hfit & base & Hc & Hf).
+  intros f s Hi. pose proof Hi as (Hinv & base & Hc & Hf).
   pose proof Hinv as [[Hok Hsz] Ht].
   cbn [estep]. rewrite seek_back by (try assumption; lia).
   eexists _, _, _. split; [reflexivity|]. cbn [pos hist]. split; [lia|]. split; [reflexivity|].
@@ -1062,7 +999,7 @@ Lemma e_redo_all : forall f s, e_inv (f, s) ->
     pos s' = length (hist s) /\ hist s' = hist s /\
     forall a, f' a = value_latest (hist s) a (f a).
 Proof.
-  intros f s Hi. pose proof Hi as (Hinv & Hfit & base & Hc & Hf).
+  intros f s Hi. pose proof Hi as (Hinv & base & Hc & Hf).
   pose proof Hinv as [[Hok Hsz] Ht]. pose proof Hok as Hok'. unfold pos_ok in Hok'.
   cbn [estep]. rewrite seek_forward by (try assumption; lia).
   eexists _, _, _. split; [reflexivity|]. cbn [pos hist]. split; [lia|]. split; [reflexivity|].
@@ -1107,14 +1044,13 @@ Definition ex_ops : list op :=
   [Record ex_A 105 0 1; Record ex_B 105 0 5; Tick 1; Record ex_A 105 1 2; Tick 2].
 
 Lemma merge_nonvacuous :
-  exists s mss, Forall op_ok ex_ops /\ Forall op_fit ex_ops /\ run ex_ops init = Some (s, mss) /\
+  exists s mss, Forall op_ok ex_ops /\ run ex_ops init = Some (s, mss) /\
     Exists (recent (clock s) ex_A) (firstn (pos s) (hist s)) /\
     hist s = [mkEv 1001 ex_A 105 0 2; mkEv 1000 ex_B 105 0 5] /\
     hist (record ex_A 105 2 3 s) = [mkEv 1003 ex_A 105 0 3; mkEv 1000 ex_B 105 0 5].
 Proof.
-  eexists _, _. split; [|split; [|split; [vm_compute; reflexivity|]]].
+  eexists _, _. split; [|split; [vm_compute; reflexivity|]].
   - repeat constructor; simpl; lia.
-  - repeat constructor.
   - split; [|split; reflexivity].
     apply Exists_cons_hd. split; [reflexivity|]. vm_compute. discriminate.
 Qed.
